@@ -60,7 +60,7 @@ package ice
 //@   requires a != nil && msg != nil
 //@   site call Check#1 assert integrity-message: arg1 == msg
 //@   site call Check#1 assert integrity-key-is-remote-pwd: elems(arg0) == strBytes(a.remotePwd) && arg0.off == 0 && len(arg0) == len(a.remotePwd)
-//@   site call Check#1 assert a-response-is-never-authenticated-with-the-empty-password: a.remotePwd != ""
+//@   site call Check#1 assert C02 C03 a-response-is-never-authenticated-with-the-empty-password: a.remotePwd != ""
 //@   site call Check#1 ghost a.gIntegOK := result == nil
 //@   site call HandleSuccessResponse#1 assert selector-only-when-authenticated: a.gIntegOK && remoteCandidate != nil
 //@   ensures reject-bad-integrity: !a.gIntegOK ==> !result && unchangedExcept("H_ice.Agent.gIntegOK")
